@@ -342,7 +342,11 @@ func runHistory(r *seq.Run, cl, tl zerolog.Level, plain bool, hist []op) {
 			switch o.kind {
 			case "w":
 				line := lineOf(id, i)
-				n, err := in.w.WriteLevel(o.lvl, []byte(line))
+				arg := []byte(line)
+				n, err := in.w.WriteLevel(o.lvl, arg)
+				for k := range arg { // the caller owns its buffer again (zerolog recycles it)
+					arg[k] = '#'
+				}
 				if n != len(line) || err != nil {
 					in.m.out = append(in.m.out, rec{0, true, fmt.Sprintf("<<WriteLevel returned (%d,%v)>>", n, err)})
 				}
@@ -405,7 +409,11 @@ func runFaultHistory(r *seq.Run, cl, tl zerolog.Level, failAt int, hist []op) {
 			case "w":
 				line := lineOf(7, i)
 				written = append(written, line)
-				w.WriteLevel(o.lvl, []byte(line))
+				arg := []byte(line)
+				w.WriteLevel(o.lvl, arg)
+				for k := range arg {
+					arg[k] = '#'
+				}
 			case "trigger":
 				w.Trigger()
 			case "close":
@@ -512,7 +520,11 @@ func (in *cinst) Body() {
 				c.call = in.clock
 				switch c.o.kind {
 				case "w":
-					w.WriteLevel(c.o.lvl, []byte(c.line))
+					arg := []byte(c.line)
+					w.WriteLevel(c.o.lvl, arg)
+					for k := range arg {
+						arg[k] = '#'
+					}
 				case "trigger":
 					w.Trigger()
 				case "close":
